@@ -1,6 +1,7 @@
 import Lemmas.Allocate
 import Lemmas.SpecConserve
 import Lemmas.Portions
+import Lemmas.SpecFloor
 /-! C03 — a send moves exactly what it says.  Part 1: the funding algebra (`internal/machine/funding.go`,
 `allotment.go`) that every send is built from.  Part 2 (second half of this file): the same facts lifted through
 the source-level semantics `Spec` (`evalSource`, `takeFromSource`, `evalDest`, `evalSend`, `run`): `send_exact`,
@@ -214,6 +215,15 @@ theorem send_all_exact {env : VEnv} {ae : Expr} {s : Source} {d : Dest} {st st' 
   obtain ⟨a, f, fb, b1, ha, hs, new, kept, h1, h2, h3, h4⟩ := send_all_src_ok h
   exact ⟨a, f, fb, b1, new, kept, ha, hs, h1, h2, h3, h4⟩
 
+/-- the asset `send [A *]` moves: that of one of the source's account occurrences — `A` for bare / unbounded
+accounts, but the overdraft's asset for `allowing overdraft up to [B n]`.  (`Spec` and the real VM agree that
+`send [USD *] (source = @a allowing overdraft up to [EUR 5] …)` moves EUR when `(a, EUR)` is tracked.) -/
+theorem send_all_asset {env : VEnv} {asset : Asset} {s : Source} {b b' : Bal} {f : Fund} {fb : Option Acct}
+    (h : evalSource env asset s b = .ok (f, fb, b')) :
+    (∃ o ∈ sourceOcc env asset s, o.asset = f.asset) ∧
+    ((∀ o ∈ sourceOcc env asset s, o.asset = asset) → f.asset = asset) :=
+  ⟨evalSource_asset env asset s b b' f fb h, evalSource_asset_eq h⟩
+
 /-- every statement only appends non-negative postings … -/
 theorem stmt_appends_nonneg {env : VEnv} {s : Stmt} {F F' : Full} (h : evalStmt env s F = .ok F') :
     ∃ new, F'.st.postings = F.st.postings ++ new ∧ ∀ p ∈ new, 0 ≤ p.amt := evalStmt_appends h
@@ -255,5 +265,10 @@ example : ∃ st', evalSend [] (.mon (.mon (.asset "USD") 10))
       st'.postings = [⟨"a", "c", 4, "USD"⟩, ⟨"b", "c", 6, "USD"⟩] := ⟨_, rfl, rfl⟩
 
 example : resolvePortions [] [.const ⟨1, 3⟩, .remaining] = .ok [⟨1, 3⟩, ⟨2, 3⟩] := rfl
+
+/-- the excluded point of `send_all_asset`: `send [USD *] (source = @a allowing overdraft up to [EUR 5]
+destination = @b)` on a state that tracks `(a, EUR)` moves 12 EUR (the real VM does the same) -/
+example : ∃ st', evalSend [] (.all (.asset "USD")) (.src (.acct (.acct "a") (.upTo (.mon (.asset "EUR") 5))))
+      (.acct (.acct "b")) ⟨⟨fun _ _ => some 7⟩, []⟩ = .ok st' ∧ st'.postings = [⟨"a", "b", 12, "EUR"⟩] := ⟨_, rfl, rfl⟩
 
 end C03
